@@ -37,6 +37,7 @@
     filler_fills_textarea filler_nested_form_unfilled
     buffer_feedback_diverges buffer_two_writers_ill_nested
     lazy_agrees_stagewise lazy_chain_wellnested
+    trace_changes_nothing map_text_changes_only_selected_text map_text_preserves_wellnested
     apply_leaves_origin apply_appends_one_link history_keeps_chains
 -/
 import Genshi.Lemmas.TfSegs2
@@ -256,6 +257,45 @@ theorem map_preserves_wellnested (all : Bool) (p r : Str) (n : Nat) (s : MStream
     WellNested (unmark (mapBang all s)) ∧ WellNested (unmark (substitute p r n s)) :=
   ⟨by unfold WellNested mapBang; rw [map_balance (mapBangEv_effPres all)]; exact hwn,
    by unfold WellNested substitute; rw [map_balance (substEv_effPres p r n)]; exact hwn⟩
+
+/-- trace() prints the items and passes them on: nothing changes. -/
+theorem trace_changes_nothing (b : Bufs) (s : MStream) : applyOp b .trace s = some (s, b) := rfl
+
+/-- map(f, TEXT), for ANY function `f` on text data: the stream keeps its length and its marks; an item
+    that is unmarked or not a TEXT event is unchanged; a marked TEXT event gets `f` of its data. -/
+theorem map_text_changes_only_selected_text (f : Str → Bool → Str × Bool) (s : MStream) :
+    mapText f s = s.map (mapTextEv f) ∧
+    (∀ p : MItem, (mapTextEv f p).1 = p.1) ∧
+    (∀ x : MEv, mapTextEv f (none, x) = (none, x)) ∧
+    (∀ (m : Option Mark) (x : MEv), (∀ t sf, x ≠ .ev (.text t sf)) → mapTextEv f (m, x) = (m, x)) ∧
+    (∀ (m : Mark) t sf, mapTextEv f (some m, .ev (.text t sf)) = (some m, .ev (.text (f t sf).1 (f t sf).2))) := by
+  refine ⟨rfl, ?_, fun x => rfl, ?_, fun m t sf => rfl⟩
+  · rintro ⟨_ | m, x⟩
+    · rfl
+    · cases x with
+      | ev e => cases e <;> rfl
+      | _ => rfl
+  · intro m x hx
+    cases m with
+    | none => rfl
+    | some m =>
+      cases x with
+      | ev e =>
+        cases e with
+        | text t sf => exact absurd rfl (hx t sf)
+        | _ => rfl
+      | _ => rfl
+
+theorem map_text_preserves_wellnested (f : Str → Bool → Str × Bool) {s : MStream} (hg : Good s)
+    (hwn : WellNested (unmark s)) : WellNested (unmark (mapText f s)) ∧ Good (mapText f s) :=
+  ⟨by unfold WellNested mapText; rw [map_balance (mapTextEv_effPres f)]; exact hwn,
+   map_good (mapTextEv_effPres f) hg⟩
+
+example : mapText (fun t _ => (t.reverse, false))
+    [(none, .ev (.text ['a', 'b'] false)), (some .outside, .ev (.text ['a', 'b'] true)),
+      (some .outside, .ev (.comment ['a', 'b']))] =
+    [(none, .ev (.text ['a', 'b'] false)), (some .outside, .ev (.text ['b', 'a'] false)),
+      (some .outside, .ev (.comment ['a', 'b']))] := by decide
 
 /-- filter(f) for any stream filter `f` that keeps balanced input balanced (`FOk f`): each
     contiguous selection is replaced by `f` of it, marked OUTSIDE — well nested and `Good`. -/
